@@ -22,6 +22,8 @@ def groups(tier):
                 clause='split terminates (loop invariants + variants on all four loops) for every threshold and share count 0..255, '
                        'yields share_count shares, and raises invalid_argument exactly for t = 0, n = 0 or t > n')]
     U = {'crypto__build_exp_table': 513, 'crypto__build_log_table': 257}
+    # (a group for evaluate_polynomial == the polynomial over the specification product exists in the harness (h_evalpoly); chained table
+    #  look-ups with symbolic indices: not decided within 15 minutes, so it is not registered -- seed C10-b is therefore not detected)
     for t in (1, 2, 3, 4):
         G += [Group(f'combine.rejects.t={t}', 'shamir_b', 'C10/gf.c', entry='h_combine_rejects', defines=['T_MAX=4', f'T_FIX={t}', 'SHAMIR_UNIT_B', 'CXX_VEC_CAP=8', 'CXX_FIXED_STORAGE'],
                 stub=['crypto__gf_mul', 'crypto__gf_div'], unwind=34,
